@@ -498,6 +498,11 @@ def _set_allocations_for_consumer(req, schema):
             'allocate: %(error)s' % {'error': exc},
             comment=errors.CONCURRENT_UPDATE)
 
+    if created_new_consumer and not allocation_objects:
+        # Empty allocations for a consumer that did not exist: nothing was
+        # written, so do not leave a consumer record without allocations.
+        delete_consumers([consumer])
+
     req.response.status = 204
     req.response.content_type = None
     return req.response
@@ -611,6 +616,11 @@ def set_allocations(req):
             'Inventory and/or allocations changed while attempting to '
             'allocate: %(error)s' % {'error': exc},
             comment=errors.CONCURRENT_UPDATE)
+
+    # Empty allocations for consumers that did not exist: nothing was written
+    # for them, so do not leave consumer records without allocations.
+    delete_consumers([consumer for consumer in new_consumers_created
+                      if not data[consumer.uuid]['allocations']])
 
     req.response.status = 204
     req.response.content_type = None
